@@ -362,6 +362,39 @@ func c01CheckMisc(c c01MiscCase) engine.Result {
 					}
 				}
 			}
+		case "validation-bodies":
+			// validation looks at the header only: every adaptation_field_length byte (c.N) x every flag byte x
+			// bodies whose following bytes read as small / maximal / exactly-filling sub-lengths
+			for b5 := 0; b5 < 256; b5++ {
+				for _, fill := range [...]int{0x00, 0xFF, 0xB5, 0x7F, -1} {
+					var raw [188]byte
+					for i := 6; i < 188; i++ {
+						raw[i] = byte(fill)
+						if fill < 0 {
+							raw[i] = byte(187 - i) // each byte is the number of bytes that follow it
+						}
+					}
+					raw[4], raw[5] = byte(c.N), byte(b5)
+					for _, b3 := range [...]byte{0x10, 0x20, 0x30, 0x3F, 0xB0, 0xF0, 0x00, 0x0F, 0x50, 0x70} {
+						for _, sync := range [...]byte{0x47, 0x46} {
+							raw[0], raw[1], raw[2], raw[3] = sync, 0x01, 0x23, b3
+							res.Evals++
+							tsc, afc := (b3>>6)&3, (b3>>4)&3
+							want := sync != 0x47 || tsc == 1 || afc == 0
+							var pk packet.Packet = raw
+							if got := pk.CheckErrors(); (got != nil) != want {
+								res.Failf("CheckErrors|iff|body-dependent", "header % x adaptation_field_length %d flags %#x fill %#x: err=%v want error=%v", raw[:4], c.N, b5, byte(fill), got, want)
+							}
+							if _, err := packet.FromBytes(raw[:]); (err != nil) != want {
+								res.Failf("FromBytes|validation-iff|body-dependent", "header % x adaptation_field_length %d flags %#x fill %#x: err=%v want error=%v", raw[:4], c.N, b5, byte(fill), err, want)
+							}
+						}
+					}
+				}
+				if len(res.Fail) > 6 {
+					break
+				}
+			}
 		case "Equal":
 			base := c01Fill(c.N, c.Seed)
 			cp := base
@@ -460,13 +493,16 @@ func init() {
 			},
 			&engine.Enum[c01MiscCase]{
 				Name: "construct-validate-equal",
-				Rule: "FromBytes on every slice length 0..400; FromBytes/CheckErrors on all 256 sync bytes x all 256 byte-3 values x 3 byte-1 values; Equal/Equals on identical, nil, all 1504 single-bit-different and all 1.13M two-bit-different packets for each of the 7 fills; CopyPackets on 0..4 packets",
+				Rule: "FromBytes on every slice length 0..400; FromBytes/CheckErrors on all 256 sync bytes x all 256 byte-3 values x 3 byte-1 values, and on 10 byte-3 values x 2 sync bytes x every adaptation_field_length byte x every adaptation-field flag byte x 5 bodies (zeros, 0xFF, 181s, 0x7F, each byte = bytes remaining) since validation must look at the header only; Equal/Equals on identical, nil, all 1504 single-bit-different and all 1.13M two-bit-different packets for each of the 7 fills; CopyPackets on 0..4 packets",
 				Gen: func(r *engine.Run, emit func(c01MiscCase)) {
 					for n := 0; n <= 400; n++ {
 						emit(c01MiscCase{"FromBytes-length", n, r.Seed})
 					}
 					for s := 0; s < 256; s++ {
 						emit(c01MiscCase{"FromBytes-validation", s, r.Seed})
+					}
+					for l := 0; l < 256; l++ {
+						emit(c01MiscCase{"validation-bodies", l, r.Seed})
 					}
 					for f := 0; f < c01NFills; f++ {
 						emit(c01MiscCase{"Equal", f, r.Seed})
